@@ -74,10 +74,17 @@ ReadRetStep(m, e, ln) ==
                                            \/ e.out # d.pay \/ e.otail # d.ptail \/ ~e.pyEq )>>,
                <<"Once",        ~junk /\ d.surfaced > 0>> >>)]
 
+\* a ReadFrom call (or the readers' exit after Close) never returned although the inner socket never blocks:
+\* a well-formed packet that was handed to the socket and has not surfaced will never arrive
+Pending(m) == \E i \in DOMAIN m.inj : m.inj[i].wlen > SaltLen /\ m.inj[i].surfaced = 0
+StalledStep(m, e, ln) ==
+  [m EXCEPT !.viol = VAll(m.viol, e, ln, << <<"Delivery_Stalled", Pending(m)>>,
+                                            <<"DRIFT_ReaderStuck", ~Pending(m)>> >>)]
+
 \* end of a scenario: every well-formed injected packet has surfaced
 EndStep(m, e, ln) ==
   [m EXCEPT !.viol = VAll(m.viol, e, ln,
-      << <<"Arrives", \E i \in DOMAIN m.inj : m.inj[i].wlen > SaltLen /\ m.inj[i].surfaced = 0>> >>)]
+      << <<"Arrives", Pending(m)>> >>)]
 
 MonStep(m, e, ln) ==
   CASE e.ev = "Reset"    -> [MonInit EXCEPT !.viol = m.viol]
@@ -87,6 +94,7 @@ MonStep(m, e, ln) ==
     [] e.ev = "Inject"   -> InjectStep(m, e, ln)
     [] e.ev = "ReadRet"  -> ReadRetStep(m, e, ln)
     [] e.ev = "End"      -> EndStep(m, e, ln)
+    [] e.ev = "ReadStalled" -> StalledStep(m, e, ln)
     [] e.ev = "Panic"    -> [m EXCEPT !.viol = V(m.viol, e, ln, "Panic", TRUE)]
     [] OTHER             -> m
 ===========================================================================
